@@ -326,7 +326,7 @@ def with_loop_headers(fn, blocks, header_pred=None):
 
 
 def is_iter_next(c):
-    return c.name.endswith("Iterator>::next") or c.name.endswith("Iterator::next")
+    return bool(re.search(r"Iterator\b.*::next$", c.name)) or bool(re.search(r"Iterator\b.*::next$", c.path))
 
 
 # --------------------------------------------------------------------------- field access
@@ -553,3 +553,76 @@ def expr_head(e, depth=3):
     if e[0] == "const":
         return str(e[1])
     return "_"
+
+
+# --------------------------------------------------------------------------- flow-insensitive taint (local granularity)
+def taint_from(fn, seeds, through_calls=True, stop_calls=None):
+    """locals (transitively) data-dependent on the seed locals. Flow-insensitive may-analysis:
+    assignments propagate from any operand's base local; a call's destination depends on all
+    arguments; a `&mut x` argument's referent depends on the other arguments (out-parameters);
+    stores through a reference taint the referent."""
+    tainted = set(seeds)
+    referent = {}
+    for i, j, p, rv, sp in fn.assigns():
+        if len(p) == 1 and rv["r"] in ("ref", "rawptr"):
+            referent.setdefault(p[0], set()).add(rv["p"][0])
+    # refs copied around
+    changed = True
+    while changed:
+        changed = False
+        for i, j, p, rv, sp in fn.assigns():
+            if len(p) == 1 and rv["r"] in ("use", "cast"):
+                l = op_local(rv["op"])
+                if l in referent and not referent[l] <= referent.get(p[0], set()):
+                    referent.setdefault(p[0], set()).update(referent[l])
+                    changed = True
+        for c in fn.calls():
+            # a call returning a reference derived from reference arguments (index, deref, as_mut_slice …)
+            if len(c.dest) == 1 and fn.local_ty(c.dest[0]).startswith("&"):
+                for a in c.args:
+                    l = op_local(a)
+                    if l in referent and not referent[l] <= referent.get(c.dest[0], set()):
+                        referent.setdefault(c.dest[0], set()).update(referent[l])
+                        changed = True
+    calls = fn.calls()
+    changed = True
+    while changed:
+        changed = False
+        for i, j, p, rv, sp in fn.assigns():
+            srcs = set()
+            for o in rv_operands(rv):
+                pl = op_place(o)
+                if pl is not None:
+                    srcs.add(pl[0])
+            if rv["r"] in ("ref", "rawptr", "discr"):
+                srcs.add(rv["p"][0])
+            if srcs & tainted:
+                tgt = p[0]
+                if tgt not in tainted:
+                    tainted.add(tgt)
+                    changed = True
+                if len(p) > 1 and p[1] in ("*", "*raw"):
+                    for r in referent.get(tgt, ()):
+                        if r not in tainted:
+                            tainted.add(r)
+                            changed = True
+        if through_calls:
+            for c in calls:
+                if stop_calls and stop_calls(c):
+                    continue
+                arg_locals = []
+                for a in c.args:
+                    pl = op_place(a)
+                    if pl is not None:
+                        arg_locals.append(pl[0])
+                hit = any(l in tainted or (referent.get(l, set()) & tainted) for l in arg_locals)
+                if hit:
+                    if c.dest[0] not in tainted:
+                        tainted.add(c.dest[0])
+                        changed = True
+                    for l in arg_locals:
+                        for r in referent.get(l, ()):
+                            if r not in tainted and fn.local_ty(l).startswith("&mut"):
+                                tainted.add(r)
+                                changed = True
+    return tainted
